@@ -86,3 +86,29 @@ Definition pf_l_vtf := Eval vm_compute in
     (if s <? 2 ^ 64 then res_e_matches (Val (fee_verdict s vf burn)) vtf
      else res_e_matches (Val (Some "Transaction output hours overflow"%string)) vtf)) cases_loops.
 Print pf_l_vtf.
+
+(* TruncateBytesTo on the implementation's own output: the kept prefix fits, one
+   more would not (or a Size() error inside the scanned part is returned with nothing kept) *)
+Definition lp_sum (l : list (Z * error)) : Z := fold_right (fun p a => fst p + a) 0 l.
+Definition lp_first_err (l : list (Z * error)) : error :=
+  match filter (fun p => is_err (snd p)) l with [] => None | p :: _ => snd p end.
+Fixpoint lp_scanned (size total : Z) (l : list (Z * error)) : list (Z * error) :=
+  match l with
+  | [] => []
+  | p :: r => if is_err (snd p) then [p]
+              else if total + fst p >? size then [] else p :: lp_scanned size (total + fst p) r
+  end.
+Definition pf_l_trunc := Eval vm_compute in
+  failing (fun c : list (Z * error) * Z * res (Z * error) => let '(l, size, o) := c in
+    match o with
+    | Panic => false
+    | Val (n, e) =>
+      let sc := lp_scanned size 0 l in
+      match lp_first_err sc with
+      | Some m => (n =? 0) && err_matches (Some m) e
+      | None => negb (is_err e) && (n =? Z.of_nat (List.length sc)) &&
+                (lp_sum (firstn (Z.to_nat n) l) <=? size) &&
+                ((n =? Z.of_nat (List.length l)) || (size <? lp_sum (firstn (Z.to_nat n + 1) l)))
+      end
+    end) cases_trunc.
+Print pf_l_trunc.
